@@ -822,8 +822,12 @@ x
             X = np.reshape(X, (np.size(X), 1))
         if X.shape[0] != self.V:
             raise ValueError('X.shape[0] != self.V')
+        # differences of (narrow or unsigned) integer coordinates must not wrap
+        X = np.asarray(X, dtype=np.float64)
         if self.E > 0:
             d = np.sum((X[self.edges[:, 0]] - X[self.edges[:, 1]]) ** 2, 1)
+        else:
+            d = np.zeros(0)
         self.weights = np.sqrt(d)
 
     def set_gaussian(self, X, sigma=0):
